@@ -367,14 +367,23 @@ def _check(ctx, run, flags=(), label="default"):
         run.ob("R4", "TestResult::%s returns %s%s (folded)" % (g, fld, sfx), gf.site, rets == 424242, witness=rets)
     for meth, fld in (("countTest", "testCount_"), ("countRun", "runCount_"), ("countCheck", "checkCount_"), ("countFilteredOut", "filteredOutCount_"), ("countIgnored", "ignoredCount_")):
         cf = prog.fn("TestResult::" + meth)
-        ops = [render(cf, n) for n in cf.walk() if n["k"] in ("UnaryOperator", "CompoundAssignOperator", "BinaryOperator") and n.get("op") in ("++", "--", "+=", "-=", "=")]
-        run.ob("R4", "TestResult::%s increments %s once%s" % (meth, fld, sfx), cf.site, ops in (["%s++" % fld], ["++%s" % fld]), witness=ops)
-    rexpr = [isf.node(n.get("value")) for n in isf.walk() if n["k"] == "ReturnStmt"]
-    for fc, rc, ic in itertools.product((0, 1, 7), (0, 1, 7), (0, 1, 7)):
-        ev = Evaluator(prog, isf, calls={"TestResult::getFailureCount": lambda fc=fc: fc, "TestResult::getRunCount": lambda rc=rc: rc, "TestResult::getIgnoredCount": lambda ic=ic: ic},
-                       env={"failureCount_": fc, "runCount_": rc, "ignoredCount_": ic})
+        counters = {f_: 40 + i_ for i_, f_ in enumerate(("testCount_", "runCount_", "checkCount_", "filteredOutCount_", "ignoredCount_", "failureCount_"))}
+        ev = Evaluator(prog, cf, env=dict(counters))
         try:
-            got = ev.ev(rexpr[0]) if len(rexpr) == 1 else None
+            ev.run_blocks(cf.entry, max_steps=100)
+            after = {k_: ev.env.get(k_) for k_ in counters}
+        except Unknown as u:
+            after = {"unknown": str(u)}
+        want_c = dict(counters)
+        want_c[fld] += 1
+        run.ob("R4", "TestResult::%s folded: increments %s by one and nothing else%s" % (meth, fld, sfx), cf.site, after == want_c, witness={k_: v_ for k_, v_ in after.items() if counters.get(k_) != v_})
+    for fc, rc, ic in itertools.product((0, 1, 7), (0, 1, 7), (0, 1, 7)):
+        ev = Evaluator(prog, isf, env={"failureCount_": fc, "runCount_": rc, "ignoredCount_": ic})
+        ev.inline = {"TestResult::getFailureCount", "TestResult::getRunCount", "TestResult::getIgnoredCount"}
+        try:
+            ev.run_blocks(isf.entry, max_steps=200)
+            got = getattr(ev, "ret", None)
+            got = int(bool(got)) if isinstance(got, (int, bool)) else got
         except Unknown as u:
             got = "unknown: %s" % u
         want = 1 if (fc > 0 or rc + ic == 0) else 0
